@@ -1,5 +1,6 @@
-CONSTANTS Stride3 = 101
-  TruncStride = 7
+CONSTANTS Stride2 = 1
+  Stride3 = 307
+  TruncStride = 11
 INIT Init
 NEXT Next
 INVARIANTS Out AnchorsAreTokenPositions
